@@ -482,8 +482,8 @@ def main(argv):
     out = vlib.Outcome(PID, args.tier, args.seed)
     rng = vlib.rng_for(args.seed, PID)
     quick = args.tier == "quick"
-    n_prog = 220 if quick else 5000
-    n_pkt = 32 if quick else 56
+    n_prog = 110 if quick else 4000
+    n_pkt = 28 if quick else 56
 
     cov = {"obligations": 0, "discharged": 0,
            "checker_cmd": "cd /verif/coq && coq_makefile -f _CoqProject -o Makefile && make -j16 " + " ".join(TARGETS) + " && coqc -Q . Dae C02_Props.v (Print Assumptions captured)",
